@@ -198,6 +198,7 @@ func execC09(spec *RunSpec) *Result {
 	rep := cr.rep
 	res.addStat("cases", int64(len(spec.Ops)))
 	res.addStat("steps", rep.Steps)
+	res.addStat("clock_span_ns", rep.ClockSpanNs)
 	res.addStat("task_switches", int64(len(rep.Switches)))
 	res.addStat("lock_blocks", rep.LockBlocks)
 	res.addStat("pool_cross_task", rep.PoolCross)
